@@ -47,6 +47,9 @@ pub struct GroupCase {
     pub ops: Vec<GOp>,
     pub drain: Vec<u8>,
     pub no_drain: bool,
+    /// storm mode: the wakers handed out by every poll are invoked by helper
+    /// threads, concurrently with the operations and polls that follow
+    pub storm: bool,
 }
 
 fn show_child(c: &ChildSpec) -> String {
@@ -95,7 +98,7 @@ impl GroupCase {
             init,
             ops.join("; "),
             if self.no_drain { " (no drain)" } else { " ; then fair drain" }
-        )
+        ) + if self.storm { " [storm: the wakers of every poll are invoked by helper threads, concurrently with what follows]" } else { "" }
     }
 }
 
@@ -795,12 +798,22 @@ pub fn run_group_case(case: &GroupCase, std_cfg: bool, trace: bool) -> GroupOut 
         g.check_view("construction");
     }
     let mut script_steps = 0usize;
+    let mut storm_bytes = crate::exec::StormBytes::new(case.drain.clone());
+    if case.storm {
+        crate::exec::storm_begin();
+    }
     for op in &case.ops {
         if !ex.alive() {
             break;
         }
         match op {
-            GOp::Act(a) => ex.act(a),
+            GOp::Act(a) => {
+                ex.act(a);
+                if case.storm && matches!(a, Action::Poll { .. }) {
+                    // the operations that follow race with these wake-ups
+                    ex.storm_send(&mut storm_bytes);
+                }
+            }
             other => {
                 if let GOp::Insert(c) = other {
                     script_steps += child_steps(c);
@@ -846,7 +859,7 @@ pub fn run_group_case(case: &GroupCase, std_cfg: bool, trace: bool) -> GroupOut 
     let mut quiescent = false;
     if !case.no_drain && ex.alive() {
         let bound = script_steps * 4 + 64;
-        quiescent = ex.drain(&case.drain, bound);
+        quiescent = if case.storm { ex.storm_drain(&mut storm_bytes, bound * 2, None) } else { ex.drain(&case.drain, bound) };
     }
     let dropped_early = ex.dropped;
     let inconclusive = ex.inconclusive;
@@ -862,6 +875,9 @@ pub fn run_group_case(case: &GroupCase, std_cfg: bool, trace: bool) -> GroupOut 
         None => GroupStats::default(),
     };
     let (held, held_r) = ex.finish();
+    if case.storm && crate::exec::storm_end() {
+        world::with(|w| w.violate_f(Oracle::WakerPanic, Some(case.fam), "invoking a waker from a helper thread, concurrently with operations on the group, panicked".into()));
+    }
     let leaves: Vec<NodeId> = world::with(|w| w.leaves.clone());
     for (i, l) in leaves.iter().enumerate() {
         if i < 3 {
@@ -987,6 +1003,7 @@ pub fn gen_group_case(bytes: &[u8], gp: &GroupProfile) -> GroupCase {
     }
     let no_drain = c.coin(gp.base.p_nodrain);
     let drain: Vec<u8> = (0..24).map(|_| c.byte()).collect();
+    let storm = c.coin(gp.base.p_storm);
     GroupCase {
         fam: gp.fam,
         keyed,
@@ -994,6 +1011,7 @@ pub fn gen_group_case(bytes: &[u8], gp: &GroupProfile) -> GroupCase {
         ops,
         drain,
         no_drain,
+        storm,
     }
 }
 
@@ -1038,6 +1056,9 @@ pub fn group_labels(case: &GroupCase, out: &GroupOut) -> Vec<&'static str> {
     }
     if case.keyed {
         l.push("keyed");
+    }
+    if case.storm {
+        l.push("concurrent_wakes_from_helper_threads");
     }
     {
         fn never(c: &ChildSpec) -> bool {
@@ -1111,6 +1132,10 @@ impl Engine for GroupEngine {
         let nontrivial = out.run.inconclusive.is_none() && group_nontrivial(&case, &out);
         let labels = group_labels(&case, &out);
         let mut violations = if out.run.inconclusive.is_some() { Vec::new() } else { std::mem::take(&mut out.run.world.viol) };
+        if case.storm {
+            // wake-ups arrive at moments the harness cannot order against member polls
+            violations.retain(|v| v.oracle != Oracle::S);
+        }
         if self.fold_shared {
             // shared oracles count for the group property only when the group
             // itself is to blame (not a combinator nested inside a member)
